@@ -242,6 +242,9 @@ def units(world):
             out2.append(("arguments-forwarded", ["C15", "C03"],
                          fwd is not None and len(fwd) == nargs + 1 and fwd[0] is ts
                          and all(x is y for x, y in zip(fwd[1:], args))))
+            # first half of the no-alias invariant of productions (replaces assumption A-noalias): what a rule hands
+            # to the search is never one of the objects it was applied to
+            out2.append(("result-is-none-of-the-arguments", ["C12", "C15"], r is None or all(r is not x for x in args)))
             return out2
         return FuncUnit("rule.rule.fwrapper.wrapper[%d args,%s]" % (nargs, which),
                         ["rule.rule.fwrapper.wrapper", "types.Artifact.update_span"],
